@@ -40,3 +40,48 @@ def element_type_name_clash(r=None):
 
 
 MINIS = {"cycle_back_reference": cycle_back_reference, "element_type_name_clash": element_type_name_clash}
+
+
+def occurrence_table(r=None):
+    """Deterministic table program for C02: every mapped builtin (and a simple and a complex user type of another file) x
+    {minOccurs 0,1} x {maxOccurs 1, 3, unbounded} x position {top-level sequence, nested sequence, choice branch, sequence with
+    minOccurs=0, sequence with maxOccurs=unbounded}; attributes x {optional, required}."""
+    from .model import BUILTINS
+    f0 = _file(0, "http://zv.test/table/main", {0: "m", 1: "o"}, [1])
+    f1 = _file(1, "http://zv.test/table/other", {1: "o"})
+    code = SimpleType(N("code"), TypeRef("string"), Facets(max_length=10), None, 1)
+    rec = ComplexType(N("rec"), Content(Group("sequence", 1, 1, [LocalElement(N("id"), TypeRef("int"))]), []), file=1)
+    f1.components = [code, rec]
+    targets = [TypeRef(b) for b in BUILTINS] + [TypeRef(code.name.xml, 1, code), TypeRef(rec.name.xml, 1, rec)]
+    comps = []
+    for pos in ("seq", "nested", "choice", "seqopt", "seqrep"):
+        for mn in (0, 1):
+            for mx in (1, 3, "unbounded"):
+                leaves = []
+                for t in targets:
+                    nm = N("mem", t.name.lower().replace(".", "").replace("64", "sixfour"))
+                    leaves.append(LocalElement(nm, t, mn, mx))
+                if pos == "seq":
+                    g = Group("sequence", 1, 1, leaves)
+                elif pos == "nested":
+                    g = Group("sequence", 1, 1, [LocalElement(N("first"), TypeRef("string")), Group("sequence", 1, 1, leaves),
+                                               LocalElement(N("last"), TypeRef("string"))])
+                elif pos == "choice":
+                    g = Group("sequence", 1, 1, [Group("choice", 1, 1, leaves), LocalElement(N("last"), TypeRef("string"))])
+                elif pos == "seqopt":
+                    g = Group("sequence", 0, 1, leaves)
+                else:
+                    g = Group("sequence", 1, "unbounded", leaves)
+                comps.append(ComplexType(N("tab", pos, "min" + ("zero" if mn == 0 else "one"), "max" + {1: "one", 3: "three", "unbounded": "many"}[mx]),
+                                         Content(g, []), file=0))
+    attrs = []
+    for t in targets[:-1]:
+        for req in (False, True):
+            attrs.append(Attr(N("att", t.name.lower().replace(".", "").replace("64", "sixfour"), "req" if req else "opt"), t, req))
+    comps.append(ComplexType(N("tab", "attributes"), Content(Group("sequence", 1, 1, []), attrs), file=0))
+    f0.components = comps
+    return SchemaSet([f0, f1], "f0.xsd", None, {"table-program", "choice", "nested-seq-followed", "occurs-n", "enclosing-occurs",
+                                                "attributes", "member-type-foreign"})
+
+
+TABLES = {"occurrence_table": occurrence_table}
